@@ -570,6 +570,58 @@ def special_harness(e):
     return {"pair": label}
 
 
+LOADED_CASES = [
+    # (tree, path to the mapping that is edited inside the payload, key, new value, the same tree built normally)
+    ("edited-property", R("VMany", items=(R("VLeaf", {"v": 1}), R("VLeaf", {"v": 2}))), ["items", 1], "v", 3, R("VMany", items=(R("VLeaf", {"v": 1}), R("VLeaf", {"v": 3})))),
+    ("edited-property-at-root", R("VStr2", {"a": "x", "b": "y"}), [], "b", "z", R("VStr2", {"a": "x", "b": "z"})),
+    ("edited-grandchild", R("VReq", child=R("VReq", child=R("VLeaf", {"v": 1}))), ["child", "child"], "v", 9, R("VReq", child=R("VReq", child=R("VLeaf", {"v": 9})))),
+    ("value-normalised-by-the-format", R("VRich", {"f": 1}), [], None, None, R("VRich", {"f": 1.0})),
+]
+
+
+def loaded_harness(e):
+    """Nodes that come out of deserialization: content_id is the digest of the content the node
+    HAS (whatever digest the payload carries), also for every ancestor."""
+    reset_all()
+    k = e.choice(len(LOADED_CASES), "case")
+    label, recipe, path, key, value, expected_recipe = LOADED_CASES[k]
+    fmt = e.pick(["dict", "json", "msgpack", "yaml"], "format")
+    original = build(recipe)
+    cls = type(original)
+    data = original.as_dict()
+    if key is not None:
+        d = data
+        for step in path:
+            d = d[step]
+        d[key] = value
+    original.detach()
+    original = None
+    if fmt == "dict":
+        loaded = cls.as_obj(data)
+    elif fmt == "json":
+        import orjson
+
+        loaded = cls.from_json(orjson.dumps(data))
+    elif fmt == "msgpack":
+        import msgpack
+
+        loaded = cls.from_msgpck(msgpack.packb(data, use_bin_type=True))
+    else:
+        import yaml
+
+        loaded = cls.from_yaml(yaml.safe_dump(data))
+    fresh = build(expected_recipe)
+    scenario = {"kind": "loaded-" + label, "format": fmt, "loaded": repr(loaded)[:300], "built": repr(fresh)[:300]}
+    if key is None and type(getattr(loaded, "f", None)) is not type(getattr(fresh, "f", None)):
+        e.assume(False)  # this format keeps the value as it was: nothing was normalised
+    got = [loaded.content_id == fresh.content_id, loaded.is_equal(fresh), fresh.is_equal(loaded)]
+    if not all(got):
+        scenario.update(content_id_equal=got[0], is_equal=got[1])
+        e.fail("loaded-node-content_id-is-not-the-digest-of-its-content:" + label, scenario=scenario)
+    e.distinct((k, fmt))
+    return scenario
+
+
 def field_order_harness(e):
     """The order in which the class declares its fields never influences the digest."""
     import sys
@@ -642,6 +694,7 @@ def spec(tier: str, seed: int) -> Spec:
     fams = [Family(f"edits[{k}:{k + chunk}]", make_edit_harness(bases[k : k + chunk]), variables=var) for k in range(0, len(bases), chunk)]
     fams.append(Family("all-pairs", make_pairs_harness(small), variables="selectors: two recipes"))
     fams.append(Family("special-pairs", special_harness, variables="selector: pair from a pool of value-level cases"))
+    fams.append(Family("loaded-nodes", loaded_harness, variables="selectors: payload case (edited property / value normalised by the format), format"))
     fams.append(Family("field-order", field_order_harness, variables="selector: declaration order of the class"))
     fams.append(Family("multiple-inheritance", mi_harness, variables="selectors: class used first, class, two value variants"))
     return Spec(
